@@ -22,8 +22,9 @@ REPO = os.environ.get('VERIF_REPO', '/repo')
 class FunctionContract:
     def __init__(self, file, qualname, prop, setup=None, requires=(), ensures=(), raises=None, loops=None,
                  modifies=(), result_ty=None, spec_env=None, locals=None, axioms=None, note='', short=None,
-                 inline_loops=None, canary=None, params=None, allow_exc=(), region=None, spec_defs=None, spec_recs=(), ghost_at=None, lemmas=(), modular=True, methods=None, attr_hooks=None, filters=None, attr_types=None):
+                 inline_loops=None, canary=None, params=None, allow_exc=(), region=None, spec_defs=None, spec_recs=(), ghost_at=None, lemmas=(), modular=True, methods=None, attr_hooks=None, filters=None, attr_types=None, blocks=()):
         self.file, self.qualname, self.prop = file, qualname, prop
+        self.blocks = list(blocks)      # block contracts (BlockSpec) that stand for their statements in this proof
         self.setup = setup
         self.requires, self.ensures = list(requires), list(ensures)
         self.raises = {k: ([v] if isinstance(v, str) else list(v)) for k, v in (raises or {}).items()}
@@ -324,7 +325,9 @@ class Result:
                                   # expressions taken as arbitrary values (their elements are not evaluated) and names of the
                                   # module / builtins the contract replaces by an assumed contract
                                   opaque_expressions=sorted(getattr(self, 'opaque', []) or []),
-                                  replaced_names=sorted(getattr(self, 'replaced', []) or [])))
+                                  replaced_names=sorted(getattr(self, 'replaced', []) or []),
+                                  # statements replaced by their block contract (each proved separately as the named region contract)
+                                  block_contracts={b.name: getattr(b.proved_by, 'short', None) for b in (getattr(self.contract, 'blocks', []) or [])}))
 
 
 def build_engine(contract, all_contracts, timeout_ms=10000, mutate=None):
@@ -371,6 +374,14 @@ def verify(contract, all_contracts=(), timeout_ms=10000, mutate=None, negate_pos
         eng.filters = dict(contract.filters)
         eng.inline_specs = dict(contract.inline_loops)
         body = strip_docstring(node)
+        eng.block_nodes = {}
+        for blk in contract.blocks:
+            if blk.proved_by is None or all(blk.proved_by is not c for c in all_contracts):
+                raise EngineError('block contract %r is not proved by a region contract of this module' % blk.name)
+            bst = select_region(body, blk.region)
+            if not bst:
+                raise EngineError('block contract %r: empty region' % blk.name)
+            eng.block_nodes[id(bst[0])] = (blk, len(bst))
         if contract.region:
             body = select_region(body, contract.region)
         gen = is_generator(node)
@@ -440,6 +451,24 @@ def verify(contract, all_contracts=(), timeout_ms=10000, mutate=None, negate_pos
                 res.pre_sat = str(r_)
                 if r_ == z3.unsat:
                     raise EngineError('precondition (with type invariants and axioms) is unsatisfiable: vacuous')
+            frame0 = None
+            if getattr(contract, 'is_block', False):
+                # a region used as a block contract elsewhere: containers it does not list in `modifies` (and that are not its own
+                # locals) have to come out as they went in, on every exit
+                mod_ids = eng.box_ids_of(contract.modifies, env)
+                frame0 = {i: (nm, b, b._e, b.ty, repr(sorted(b.cd)) if b.cd is not None else None)
+                          for i, (nm, b) in eng.frame_boxes(env).items()
+                          if i not in mod_ids and nm.split('.')[0].split('[')[0] not in contract.locals}
+
+            def check_frame():
+                for i_, (nm, b, e0, ty0, cd0) in sorted((frame0 or {}).items(), key=lambda kv: kv[1][0]):
+                    cd1 = repr(sorted(b.cd)) if b.cd is not None else None
+                    if b.ty is ty0 and cd1 == cd0 and (ty0 is None or e0 is b._e or z3.eq(e0, b._e)):
+                        continue
+                    if ty0 is not None and b.ty == ty0 and cd1 == cd0:
+                        eng.oblige(b._e == e0, 'frame:block:%s' % nm)
+                    else:
+                        eng.oblige(False, 'frame:block:%s' % nm)
             eng.ghost_hook('entry', env)
             if gen:
                 env.vars['__yielded__'] = Box(contract.result_ty) if contract.result_ty else Box(None, kind='list')
@@ -461,6 +490,7 @@ def verify(contract, all_contracts=(), timeout_ms=10000, mutate=None, negate_pos
                     result = env.vars['__yielded__']
             except PyExc as ex:
                 _normalise_attrs(contract, env)
+                check_frame()
                 conds = None
                 for k, v in contract.raises.items():
                     from .interp import exc_isinstance
@@ -477,6 +507,7 @@ def verify(contract, all_contracts=(), timeout_ms=10000, mutate=None, negate_pos
                 return
             res.reached_post += 1
             _normalise_attrs(contract, env)
+            check_frame()
             if contract.result_ty is not None and isinstance(result, Box) and result.ty is None and result.cd is None:
                 # an empty literal returned where the contract declares the type (inside an Optional: the payload type)
                 rt = contract.result_ty
